@@ -370,7 +370,9 @@ def random_history(case, nsteps, weights):
             un.io.delete = lambda copies: sel.extend(copies)
             case.env.set_host("h1")
             un.update_delete()
-            line = f"w.q updateDelete {node.id}"
+            sizes = ",".join(f"{case.mid_copy.get(c.id, c.id)}:{c.size_b}" for c in db.ArchiveFileCopy.select().where(
+                db.ArchiveFileCopy.node == node) if c.size_b is not None) or "-"
+            line = f"w.q updateDeleteSized {node.id} {sizes}"
             real_ids = ",".join(str(case.mid_copy.get(c.id, c.id)) for c in sel) or "-"
             d = dict(kind="select_delete", node=node.id, selected=[c.id for c in sel])
             lines.append(line); exp.append(real_ids)
